@@ -8,7 +8,8 @@ classes reach this branch" is a finite, exact computation.
 """
 import ast
 
-from .model import AnalysisError, ClassInfo, FuncInfo, dotted, own_nodes, unparse
+from .model import (AnalysisError, ClassInfo, FuncInfo, dotted, own_nodes, single_return_expr,
+                    unparse)
 from .pathcond import decompose, path_info
 
 
@@ -91,8 +92,7 @@ def predicate_sets(pm, fam):
     preds = {}
     pending = {}
     for name, f in fam.module.functions.items():
-        if len(f.node.args.args) != 1 or len(f.node.body) != 1 or \
-                not isinstance(f.node.body[0], ast.Return):
+        if len(f.node.args.args) != 1 or single_return_expr(f.node) is None:
             continue
         pending[name] = f
     progress = True
@@ -100,7 +100,7 @@ def predicate_sets(pm, fam):
         progress = False
         for name, f in list(pending.items()):
             arg = f.node.args.args[0].arg
-            s = _expr_set(pm, fam, f.module, f.node.body[0].value, arg, preds)
+            s = _expr_set(pm, fam, f.module, single_return_expr(f.node), arg, preds)
             if s is not None:
                 preds[name] = s
                 del pending[name]
